@@ -125,6 +125,35 @@ func reconcileBody(r *explore.Run, rep *report.R) {
 			outcome = append(outcome, fmt.Sprintf("%s:none(found=%v)", K, found))
 		}
 	}
+	// Another XRD offers a claim with the same names: the claim CRD that
+	// exists is controlled by the first XRD and must stay its CRD.
+	if d.Spec.ClaimNames != nil && collision == "" && x.renderable() && oerr == nil {
+		name := d.Spec.ClaimNames.Plural + "." + d.Spec.Group
+		before := s.Peek(crdKey(name))
+		if before != nil {
+			b := d.DeepCopy()
+			b.SetName("xrivals." + d.Spec.Group)
+			b.SetUID("rival-xrd-uid")
+			b.SetResourceVersion("")
+			b.Spec.Names = extv1.CustomResourceDefinitionNames{Kind: "XRival", Plural: "xrivals", Singular: "xrival", ListKind: "XRivalList"}
+			for i := range b.Spec.Versions {
+				b.Spec.Versions[i].Schema = nil
+			}
+			s.Seed(b)
+			berr, bp := reconcileOnce(offered.NewReconciler(offered.NewClientApplicator(c)), b.GetName())
+			after := s.Peek(crdKey(name))
+			r.Logf("rival XRD with the same claim names: offered err=%v panic=%v", berr, bp)
+			switch {
+			case bp != nil:
+				f.add("panic/offered-reconciler", "offered reconciler panicked on a rival XRD: %v", bp)
+			case after == nil || canon(after.Object["spec"]) != canon(before.Object["spec"]) || canon(after.GetOwnerReferences()) != canon(before.GetOwnerReferences()):
+				f.add("reconcile/claim/crd-taken-over-by-another-xrd", "XRD %s offers the claim names of %s; its reconcile rewrote the claim CRD %s that %s controls (owner references %s -> %s)", b.GetName(), d.GetName(), name, d.GetName(), canon(before.GetOwnerReferences()), canon(after.GetOwnerReferences()))
+			case berr == nil:
+				f.add("reconcile/claim/crd-conflict-not-reported", "XRD %s offers the claim names of %s; its reconcile reports no error although the claim CRD belongs to %s", b.GetName(), d.GetName(), d.GetName())
+			}
+			outcome = append(outcome, fmt.Sprintf("rival:%v", berr != nil))
+		}
+	}
 	if f.raise(r, "reconcile") {
 		return
 	}
